@@ -126,6 +126,7 @@ pub fn gen_from_seed(gseed: u64, with_bug: bool, r: &mut Rng, scale: usize) -> B
                 "many-tags" => *r.pick(&[10usize, 1000]),
                 "deflate-bomb" => 1,
                 "link-chain" => *r.pick(&[3usize, 40, 700]),
+                "many-palette-packets" => *r.pick(&[3usize, 300, 2000]),
                 "bomb-with-links" => *r.pick(&[1usize, 2]),
                 _ => 1,
             }
@@ -181,7 +182,7 @@ pub enum JobKind {
     /// BLOCK random runs; sub = index in block
     Random { first_run: u64 },
     /// every (field, value) cell of one base
-    Cells { base: Base, cells: Vec<(usize, u64)>, pairs: Vec<[(usize, u64); 2]>, fields: Vec<format::Field> },
+    Cells { base: Base, cells: Vec<(usize, u64)>, pairs: Vec<([(usize, u64); 2], bool)>, fields: Vec<format::Field> },
     /// every cut of one base (C13); `variants` extra sampled reader variants
     Cuts { base: Base, cuts: Vec<usize>, variants: Vec<(usize, u8)> },
     /// every hard-error offset x kind of one base (C14)
@@ -253,7 +254,7 @@ pub fn num_jobs(ctx: &Ctx, prop: &str) -> u64 {
     l.cell_bases + l.special + l.random_blocks
 }
 
-fn structured_base(ctx: &Ctx, prop: &str, k: u64, max_len: usize) -> Base {
+pub fn structured_base(ctx: &Ctx, prop: &str, k: u64, max_len: usize) -> Base {
     // k-th base of the structured phase: corpus files first (small ones), then generated
     let small = ctx.small_corpus as u64;
     let use_corpus = match (prop, ctx.tier) {
@@ -330,7 +331,7 @@ pub fn make_job(ctx: &Ctx, prop: &str, id: u64) -> Job {
     }
 }
 
-fn cells_job(base: Base, inflate_only: bool) -> JobKind {
+pub fn cells_job(base: Base, inflate_only: bool) -> JobKind {
     let fields: Vec<format::Field> = faults::int_fields(&base.map).into_iter().cloned().collect();
     let related = faults::related_values(&base.map);
     let mut cells = Vec::new();
@@ -381,7 +382,40 @@ fn cells_job(base: Base, inflate_only: bool) -> JobKind {
                 };
                 for va in vals(fa) {
                     for vb in vals(fb) {
-                        pairs.push([(container[a], va), (container[b], vb)]);
+                        // each pair under two reader policies: full reads and one byte at a time
+                        pairs.push(([(container[a], va), (container[b], vb)], false));
+                        pairs.push(([(container[a], va), (container[b], vb)], true));
+                    }
+                }
+            }
+        }
+        // correlated pairs inside one chunk: two declared fields that "agree with each other"
+        // (count == last - first + 1, width x height == length, ...) prove nothing about the data
+        for c in base.map.chunks.iter().take(40) {
+            let inside: Vec<usize> = fields
+                .iter()
+                .enumerate()
+                .filter(|(_, f)| f.off >= c.off + 6 && f.off < c.off + c.size && f.kind.is_sizeish() && f.width >= 2)
+                .map(|(i, _)| i)
+                .take(6)
+                .collect();
+            for a in 0..inside.len() {
+                for b in a + 1..inside.len() {
+                    let (fa, fb) = (&fields[inside[a]], &fields[inside[b]]);
+                    let w = fa.width.min(fb.width);
+                    let max = (1u64 << (8 * w)) - 1;
+                    let mut vs: Vec<u64> = vec![max];
+                    if w >= 4 {
+                        vs.extend_from_slice(&[1 << 16, 1 << 22, 1 << 28]);
+                    } else {
+                        vs.push(1 << 12);
+                    }
+                    for v in vs {
+                        for (da, db) in [(0i64, 0i64), (0, -1), (-1, 0), (1, 0), (0, 1)] {
+                            let va = (v as i64 + da).clamp(0, max as i64) as u64;
+                            let vb = (v as i64 + db).clamp(0, max as i64) as u64;
+                            pairs.push(([(inside[a], va), (inside[b], vb)], false));
+                        }
                     }
                 }
             }
@@ -456,6 +490,13 @@ fn special_items(ctx: &Ctx, prop: &str) -> Vec<(String, usize)> {
                 v.push(("bomb-with-links".into(), n));
                 v.push(("bomb-with-links".into(), n));
             }
+            // one honest image well above 64 MiB *before* the small hostile files that follow in
+            // this job: anything a load leaves behind in the process (size hints, pooled buffers)
+            // is then charged to files that did not supply the bytes
+            v.push(("bomb-with-links".into(), if q { 80 } else { 100 }));
+            for _ in 0..if q { 40 } else { 200 } {
+                v.push(("chunk-size-boundary".into(), 1));
+            }
             for n in if q { vec![5000usize] } else { vec![5000, 65_535] } {
                 v.push(("link-chain".into(), n));
             }
@@ -491,6 +532,12 @@ fn special_items(ctx: &Ctx, prop: &str) -> Vec<(String, usize)> {
             for _ in 0..if q { 8 } else { 60 } {
                 v.push(("sparse-palette-gap".into(), 1));
             }
+            for n in if q { vec![300usize, 2000] } else { vec![300, 300, 2000, 2000, 20_000, 65_535] } {
+                v.push(("many-palette-packets".into(), n));
+            }
+            for _ in 0..if q { 40 } else { 400 } {
+                v.push(("chunk-size-boundary".into(), 1));
+            }
             // renders whose extent exceeds i32: only where they finish in seconds (optimised build)
             if prop == "C05" {
                 for _ in 0..if q { 1 } else { 4 } {
@@ -498,7 +545,7 @@ fn special_items(ctx: &Ctx, prop: &str) -> Vec<(String, usize)> {
                 }
             }
             for b in spec::BUGS {
-                if !matches!(*b, "deep-nesting" | "many-layers" | "many-tags" | "many-frames-high-layer" | "deflate-bomb" | "tilemap-huge-extent" | "link-chain" | "bomb-with-links") {
+                if !matches!(*b, "deep-nesting" | "many-layers" | "many-tags" | "many-frames-high-layer" | "deflate-bomb" | "tilemap-huge-extent" | "link-chain" | "bomb-with-links" | "many-palette-packets" | "chunk-size-boundary") {
                     for _ in 0..if q { 2 } else { 12 } {
                         v.push((b.to_string(), 1));
                     }
@@ -557,8 +604,12 @@ impl Job {
                     let (fi, v) = cells[sub as usize];
                     p.edits.push(faults::field_edit(&base.bytes, &fields[fi], v));
                 } else {
-                    for (fi, v) in pairs[sub as usize - cells.len()] {
+                    let (pr, one_byte) = pairs[sub as usize - cells.len()];
+                    for (fi, v) in pr {
                         p.edits.push(faults::field_edit(&base.bytes, &fields[fi], v));
+                    }
+                    if one_byte {
+                        p.reader.sizes = vec![1];
                     }
                 }
                 p.wrapper = if mode == "mem" { Wrapper::Sim } else { Wrapper::Slice };
@@ -817,4 +868,45 @@ pub fn kind_of_field(m: &Map, off: usize) -> Option<(&'static str, &'static str,
 #[allow(dead_code)]
 pub fn no_reader() -> ReaderPlan {
     ReaderPlan::default()
+}
+
+/// Base files of the C16 cross-profile cell walk: structurally rich corpus files first, then
+/// generated sprites.
+pub fn c16_cell_base(ctx: &Ctx, k: u64) -> Option<Base> {
+    const RICH: &[&str] = &[
+        "tilemap.aseprite",
+        "256_color_old_palette_chunk.aseprite",
+        "linked_cels.aseprite",
+        "tilemap_indexed.aseprite",
+        "layers_and_tags.aseprite",
+        "indexed.aseprite",
+        "tilemap_multi.aseprite",
+        "user_data.aseprite",
+        "slice_advanced.aseprite",
+        "tilemap_empty_edges.aseprite",
+        "background.aseprite",
+        "palette.aseprite",
+        "tilemap_grayscale.aseprite",
+        "transparency.aseprite",
+        "rawcel.aseprite",
+        "grayscale.aseprite",
+    ];
+    if (k as usize) < RICH.len() {
+        let (name, bytes) = ctx.corpus.iter().find(|(n, _)| n == RICH[k as usize])?;
+        return Some(Base {
+            desc: format!("corpus:{}", name),
+            bytes: bytes.clone(),
+            map: format::walk(bytes),
+            bug: None,
+        });
+    }
+    let gseed = mix(&[ctx.seed, tag("c16-cells"), k]);
+    let mut r = Rng::new(gseed ^ 0x55);
+    for attempt in 0..16u64 {
+        let b = gen_from_seed(gseed.wrapping_add(attempt), false, &mut r, 0);
+        if b.bytes.len() <= 6 << 10 {
+            return Some(b);
+        }
+    }
+    None
 }
